@@ -78,13 +78,22 @@ def unit_fd(u, customs=None):
     return float(f) * ff, d
 
 
-def customs_of(units):
-    """[{name,text,unit}] (in text order; later ones may use earlier ones) -> {'[name]': (factor, dims)}"""
+def customs_of(units, twin=False):
+    """[{name,text,unit}] (in text order; later ones may use earlier ones) -> {'[name]': (factor, dims)}
+    twin=True: the recorded defect 'definition keeps only <value> x the library base units m, g, s'"""
     out = {}
     for cu in units or []:
         f, d = unit_fd(cu['unit'], out)
+        if twin:
+            f = 1e-3 ** d[1]
         out['[' + cu['name'] + ']'] = (float(cu['text']) * f, d)
     return out
+
+
+def bad_customs(units):
+    """symbols whose factor under the recorded definition defect differs from the true one"""
+    a, b = customs_of(units), customs_of(units, True)
+    return {s for s in a if abs(a[s][0] / b[s][0] - 1) > 1e-12}
 
 
 def unit_for_dims(rng, d, customs=None, allow_custom=True):
@@ -305,9 +314,9 @@ def eval_num(seq, idx, customs):
     return acc
 
 
-def num_expected(seq, env, unit):
+def num_expected(seq, env, unit, twin=False):
     """-> (value in `unit`, absolute tolerance slack) ; raises Undefined / DimMismatch"""
-    customs = customs_of(env.get('units'))
+    customs = customs_of(env.get('units'), twin)
     q = eval_num(seq, env_index(env), customs)
     f, d = unit_fd(unit, customs)
     if d != q.d:
@@ -423,7 +432,7 @@ class NumGen:
 
     def term(self, d, depth, positive=False):
         rng = self.rng
-        n = rng.choice([1, 1, 2, 2, 3])
+        n = rng.choice([1, 1, 1, 2, 2, 3])
         if n == 1:
             return ('seq', [self.factor(d, depth, positive)])
         for _ in range(20):
@@ -437,8 +446,18 @@ class NumGen:
                 items = [self.factor(d0, depth, positive)]
                 for op, dd in zip(ops, ds):
                     items += [op, self.factor(dd, depth, positive)]
+                if rng.random() < 0.2:      # a dimensionless function factor (exp, log, sin, ... live here)
+                    items += [rng.choice('*/'), self.fn_nodim(depth)]
                 return ('seq', items)
         return ('seq', [self.factor(d, depth, positive)])
+
+    def fn_nodim(self, depth):
+        rng = self.rng
+        name = rng.choice(['exp', 'log', 'log10', 'sin', 'cos', 'tan'])
+        arg = self.ratio(max(depth - 1, 0))
+        if name == 'exp' and rng.random() < 0.5:
+            arg = ('seq', [('lit', rng.choice(['0.5', '1.5', '2', '-1.25']), None)])
+        return ('fn', name, [arg])
 
     def sum(self, d, depth, nterms=None):
         rng = self.rng
@@ -545,7 +564,8 @@ class LogEval:
 
     def __init__(self, env, twin=False):
         self.idx = env_index(env)
-        self.customs = customs_of(env.get('units'))
+        self.customs = customs_of(env.get('units'), twin)
+        self.bad = bad_customs(env.get('units')) if twin else set()
         self.twin = twin
         self.used = set()
 
@@ -558,6 +578,8 @@ class LogEval:
         if not self.twin:
             return good, False
         bare = (op == '==')
+        if self.bad and any(s in self.bad for o in (A, B) for s, _ in (o['unit'] or [])):
+            self.used.add('C18-custom-unit-definition-drops-unit-magnitude')
         # --- recorded defects, by construct
         if A['kind'] == 'lit' and B['kind'] == 'lit':
             self.used.add('C18-two-literal-comparison-untyped')
@@ -730,6 +752,8 @@ class LogGen:
         isint = node['type'] == 'int'
         mixed = isint and self.triggers == 0 and rng.random() < self.mixed
         rel = self.relation(op, want)            # 'lt': node < literal, 'gt': node > literal, 'eq'
+        if rel == 'eq' and op == '!=' and node.get('computed'):
+            rel = 'lt'                           # no exact text exists for a computed value
         unit, fu = node.get('unit'), f
         if node.get('unit') and (not isint or (mixed and rng.random() < 0.5)) and rng.random() < 0.6:
             unit = self.near_unit(node['unit'], d)
